@@ -86,6 +86,10 @@ func (rn *runner) runParamsOnce(c *Case, fresh bool) {
 				ctx.Set(op.Key, op.Val)
 			case "del":
 				ctx.Delete(op.Key)
+			case "fill":
+				for i := 1; i <= op.N; i++ {
+					ctx.Set("f"+strconv.Itoa(i), "v")
+				}
 			case "reset":
 				ctx.Reset()
 			case "recycle":
@@ -95,7 +99,7 @@ func (rn *runner) runParamsOnce(c *Case, fresh bool) {
 				panic("unknown params op " + op.Op)
 			}
 		})
-		o := obj("op", js(op.Op), "key", js(op.Key), "val", js(op.Val))
+		o := obj("op", js(op.Op), "key", js(op.Key), "val", js(op.Val), "n", jint(op.N))
 		rn.emit(obj("ev", js("pop"), "o", o, "res", js(res)))
 		for _, k := range c.Keys {
 			rn.pobs(ctx, k)
